@@ -929,11 +929,12 @@ _known(
     "Diff.evolution() emits only the new field's non-default attributes for "
     "a type change, but ChangeField.simulate() resets the attributes only "
     "when the database column type changes; for same-column-type changes "
-    "(OneToOneField->ForeignKey, SlugField->CharField) stale attributes such "
-    "as unique=True / db_index=True survive.",
+    "(SlugField->CharField: db_index=True survives; nullable ForeignKey->"
+    "IntegerField: null=True survives) stale attributes stay in the "
+    "signature.",
     {'kind': 'pair',
-     'old': make_spec([('f', ['OneToOneField', {'to': 'A'}])]),
-     'new': make_spec([('f', ['ForeignKey', {'to': 'A'}])])})
+     'old': make_spec([('f', ['SlugField', {}])]),
+     'new': make_spec([('f', ['CharField', {'max_length': 50}])])})
 
 _known(
     'C05-retype-relation-same-target-crashes', 'hint-resolves',
@@ -3280,7 +3281,7 @@ def _c13_scenarios(tier, rng):
                                            {'null': True}])])))}
 
     sizes = (C05_SAMPLE_SIZES['quick'] if tier == 'quick' else
-             {'meta-combo': 3000, 'multi-field': 8000})
+             {'meta-combo': 5000, 'multi-field': 12000})
 
     for family, inputs in _c05_scenarios(tier, rng, sizes):
         if inputs.get('kind') != 'pair':
@@ -3392,7 +3393,35 @@ def replay_C13(inputs):
 # Command line
 # ---------------------------------------------------------------------------
 
+def selfcheck():
+    """Run every KNOWN witness; each must still fail with its own id."""
+    H.setup()
+    _custom_field()
+    report = []
+
+    for entry in KNOWN:
+        prop = entry['id'][:3]
+        evaluator = {'C05': _c05_eval, 'C06': _c06_eval,
+                     'C13': _c13_eval}[prop]
+        results = evaluator(copy.deepcopy(entry['inputs']))['results']
+        hits = [r['clause'] for r in results
+                if not r['ok'] and entry['id'] in (r.get('known_id') or '')]
+        replay = globals()['replay_' + prop](
+            dict(copy.deepcopy(entry['inputs']), clause=hits[0])
+            if hits else copy.deepcopy(entry['inputs']))
+        report.append({'id': entry['id'], 'failing_clauses': hits,
+                       'witness_fails': bool(hits),
+                       'replay_reproduced': replay['reproduced']})
+
+    return report
+
+
 def main(argv):
+    if 'selfcheck' in argv:
+        print(json.dumps(selfcheck(), indent=1))
+        H.teardown()
+        return
+
     props = [a for a in argv if a in ('C05', 'C06', 'C13')] or \
         ['C05', 'C06', 'C13']
     tier = 'thorough' if 'thorough' in argv else 'quick'
